@@ -13,7 +13,8 @@
      H_geos_intersection     shapely returns the vertices of (extent /\ Earth disk polygon) *)
 From Coq Require Import Reals ZArith List Lia Bool Sorted PrimFloat.
 From PR Require Import Base.Num Base.RNum Base.F64 Model.Boundary
-     Gen.GenC16 Proofs.C16_idx Proofs.C16_ring Proofs.C16_f64 Proofs.C16_geos Proofs.C16_gen Proofs.C16_legacy Proofs.C16_decimate Proofs.C16_nan.
+     Gen.GenC16 Proofs.C16_idx Proofs.C16_ring Proofs.C16_f64 Proofs.C16_geos Proofs.C16_gen Proofs.C16_legacy Proofs.C16_decimate Proofs.C16_nan
+     Base.Imp Model.ImpBoundary Gen.GenC16imp Proofs.C16_imp_nan Proofs.C16_imp_state Proofs.C16_imp_decimate.
 Import ListNotations.
 Open Scope Z_scope.
 
@@ -230,3 +231,63 @@ Example C16_nan_ex :
   = Some [[(1%float, 2%float); (5%float, 6%float)]]
   /\ filter_sides_nans F64 [[(1%float, 2%float)]; [(3%float, PrimFloat.nan)]] = None.
 Proof. split; vm_compute; reflexivity. Qed.
+
+(* ------------------------------------------------------------------ code is model (imperative front end, Gen/GenC16imp.v) *)
+(* BaseDefinition._filter_sides_nans, regenerated from /repo WITH its per-side loop, the two accumulators and the raise:
+   on two lists of sides of matching lengths it returns exactly the model's filtered sides (unzipped), and raises exactly
+   when the model fails *)
+Theorem C16_filter_sides_nans_code_is_model : forall (T : Type) (OP : ops T) (d1 d2 : list (list T)),
+  same_lengths d1 d2 ->
+  value_of (imp_filter_sides_nans OP d1 d2)
+  = match filter_sides_nans OP (zip_sides d1 d2) with Some r => COk (unzip_sides r) | None => CRaised end.
+Proof. intros T OP. exact (imp_filter_sides_nans_code_is_model OP). Qed.
+Print Assumptions C16_filter_sides_nans_code_is_model.
+(* so the NaN specification is a theorem about the generated code: what it returns are the valid vertices of every side, in
+   order, no coordinate of either returned list is NaN, no side is empty *)
+Theorem C16_filter_sides_nans_code_spec : forall (T : Type) (OP : ops T) (d1 d2 r1 r2 : list (list T)),
+  same_lengths d1 d2 -> value_of (imp_filter_sides_nans OP d1 d2) = COk (r1, r2) ->
+  r1 = map (fun s => map fst (filter (valid_vertex OP) s)) (zip_sides d1 d2)
+  /\ r2 = map (fun s => map snd (filter (valid_vertex OP) s)) (zip_sides d1 d2)
+  /\ Forall (Forall (fun x => isnan OP x = false)) r1 /\ Forall (Forall (fun y => isnan OP y = false)) r2
+  /\ Forall (fun s => s <> []) r1.
+Proof. intros T OP. exact (imp_filter_sides_nans_spec OP). Qed.
+Print Assumptions C16_filter_sides_nans_code_spec.
+Example C16_imp_nan_ex :
+  value_of (imp_filter_sides_nans F64 [[1%float; 3%float; PrimFloat.nan; 5%float]] [[2%float; PrimFloat.nan; 4%float; 6%float]])
+  = COk ([[1%float; 5%float]], [[2%float; 6%float]]).
+Proof. vm_compute. reflexivity. Qed.
+
+(* AreaBoundary.decimate, regenerated with its loop over the sides, the in-place item assignment into self.sides_lons /
+   self.sides_lats and the final reset of the memoised polygon: for ratio >= 1 and an object with as many latitude as longitude
+   sides, each with >= 2 vertices, it does not raise, every side becomes its selection at decimate_idx (the positions of
+   C16_decimate_positions), and the memo is None *)
+Theorem C16_decimate_code_is_model : forall (T : Type) (OP : ops T) (P : Type) (b : @area_boundary T P) ratio,
+  1 <= ratio -> sides_ok b ->
+  exists s', imp_decimate OP b ratio = Fall [] s'
+    /\ imp_decimate_self s' = mk_ab (decimate_sides (nan OP) ratio (ab_lons b)) (decimate_sides (nan OP) ratio (ab_lats b)) None.
+Proof. intros T OP P. exact (imp_decimate_code_is_model OP). Qed.
+Print Assumptions C16_decimate_code_is_model.
+(* whatever the object and the ratio: if decimate completes, the memoised polygon is gone *)
+Theorem C16_decimate_resets_memo : forall (T : Type) (OP : ops T) (P : Type) (b : @area_boundary T P) ratio s',
+  state_of (imp_decimate OP b ratio) = COk s' -> ab_poly (imp_decimate_self s') = None.
+Proof. intros T OP P. exact (imp_decimate_resets_memo OP). Qed.
+Print Assumptions C16_decimate_resets_memo.
+
+(* Boundary.contour_poly (a memoising property), regenerated: it returns the memo if there is one, else poly_of(contour())
+   which it stores; the sides are untouched *)
+Theorem C16_contour_poly_code_is_model : forall (T P : Type) (poly_of : list T * list T -> P) (p0 : P) (b : @area_boundary T P),
+  exists s', imp_contour_poly poly_of p0 b = Ret [] s' (match ab_poly b with Some p => p | None => poly_of (ab_contour b) end)
+    /\ imp_contour_poly_self s'
+       = mk_ab (ab_lons b) (ab_lats b) (Some (match ab_poly b with Some p => p | None => poly_of (ab_contour b) end)).
+Proof. intros T P. exact (@imp_contour_poly_code_is_model T P). Qed.
+Print Assumptions C16_contour_poly_code_is_model.
+
+(* histories on ONE object: for every sequence of decimate(r) / contour_poly calls (run on the generated code) starting from an
+   object whose memo, if any, is the polygon of its sides (a fresh object has none), every contour_poly observation is the
+   polygon of the sides the object has at that moment - never a stale one *)
+Theorem C16_history_contour_poly_is_current : forall (T : Type) (OP : ops T) (P : Type) (poly_of : list T * list T -> P) (p0 : P)
+  (h : list op) (b b' : @area_boundary T P) obs,
+  memo_ok poly_of b -> run_ops OP poly_of p0 h b = Some (b', obs) ->
+  memo_ok poly_of b' /\ obs = map (option_map poly_of) (expected OP poly_of h b).
+Proof. intros T OP P poly_of p0. exact (history_contour_poly_is_current OP poly_of p0). Qed.
+Print Assumptions C16_history_contour_poly_is_current.
